@@ -292,10 +292,10 @@ def record(src):
         case = {'kind': 'intfn', 'f': src['f'], 'inlen': src['inlen'], 'outlen': src['outlen'], 'big': src['big'], 'binary': src['binary'], 'exc': '', 'rows': [], 'src': src}
         try:
             if src['binary']:
-                f = PyFunction.from_int_binary_func(INTF2[src['f']], src['inlen'], src['outlen'], big_endian=src['big'])
+                f = PyFunction.from_int_binary_func(INTF2[src['f']], src['inlen'], src['outlen'], **({} if (not src['big'] and src['inlen'] % 2 == 0) else {'big_endian': src['big']}))
                 n = 2 * src['inlen']
             else:
-                f = PyFunction.from_int_unary_func(INTF[src['f']], src['inlen'], src['outlen'], big_endian=src['big'])
+                f = PyFunction.from_int_unary_func(INTF[src['f']], src['inlen'], src['outlen'], **({} if (not src['big'] and src['inlen'] % 2 == 0) else {'big_endian': src['big']}))
                 n = src['inlen']
             res = [list(f.evaluate(list(x))) for x in _rows(n)]
             width = len(res[0])
